@@ -84,8 +84,8 @@ Fixpoint dist_sw (fuel : nat) (f : nf) (fresh : Z) : res (nf * Z) :=
                 ' (c, fr') <- switching_combination cl fr ;; dist_sw n c fr'
           else
             match cl with
-            | c0 :: _ => Ok (c0, fr)
-            | [] => Err EIndexError
+            | c0 :: _ => Ok (c0, fr)     (* elif len(clauses) == 1: return (clauses[0], new_fresh) *)
+            | [] => Ok (f, fresh)        (* else: return (f, fresh) *)
             end
       | NNot c =>
           match c with
